@@ -303,6 +303,30 @@ fn run_cur_full_buffered(naming: Option<NamingK>, closer: usize, mode: ModeK) ->
             });
         }
     }
+    if naming.is_none() && closer == 1 && !mode.is_async() {
+        // the device problem is over - the path is free again: another reopen_output() must
+        // recover, whatever could not be written to the old file
+        let victim = planted.lock().unwrap().clone();
+        if let Some(p) = &victim {
+            std::fs::remove_file(p).ok();
+        }
+        let _ = h.apply(HOp::Reopen);
+        let _ = h.apply(HOp::W(20));
+        let _ = h.apply(HOp::W(20));
+        let last = h.accepted.last().cloned().unwrap_or_default();
+        h.stop();
+        drop(h);
+        env.leave();
+        let content = victim.as_ref().and_then(|p| std::fs::read(p).ok()).unwrap_or_default();
+        return if content.ends_with(&last) && std::fs::symlink_metadata(victim.unwrap_or_default()).is_ok_and(|m| m.is_file()) {
+            Ok(env.errlines().len())
+        } else {
+            Err(Fail {
+                clause: "no-recovery",
+                detail: format!("the symlink to the full device was removed and reopen_output() called again, two records logged: the file at the path holds {:?}", String::from_utf8_lossy(&content)),
+            })
+        };
+    }
     h.stop();
     drop(h);
     env.leave();
@@ -1016,6 +1040,28 @@ fn judge_obs(c: &Case, o: &RunObs, reference: Option<&Reference>) -> Result<(), 
             return Err(Fail {
                 clause: "unrelated-record-lost",
                 detail: format!("record {:?} (near the end) is missing although its own write did not fail; faults {:?}; files {:?}\n   found {:?}", texts[missing], o.injected, o.names, o.found),
+            });
+        }
+    }
+    // (5) "all other guarantees hold": the size criterion. A record may be appended to a file that
+    // already exceeds the limit only by an operation whose rotation attempt hit a fault (it
+    // retries with the next record); every other such record is one too many
+    if matches!(c.cfg.rotation, Some((CritK::Size(_), _, _))) {
+        let mut excess = 0usize;
+        for g in &o.groups {
+            let mut cum = 0u64;
+            for t in g {
+                if cum > LIMIT {
+                    excess += 1;
+                }
+                cum += (t.len() + ending.len()) as u64;
+            }
+        }
+        let tolerated = o.ops.iter().filter(|(sites, _, _)| !sites.is_empty()).count() + o.exempt.len();
+        if excess > tolerated {
+            return Err(Fail {
+                clause: "appended-beyond-limit",
+                detail: format!("{excess} records were appended to files that already exceeded the size limit {LIMIT}, but only {tolerated} operation(s) hit a fault (a failed rotation is retried with the next record): files {:?}; faults {:?}", o.groups, o.injected),
             });
         }
     }
